@@ -356,6 +356,9 @@ impl ServerAccountStorage for ServerDatabaseStorage {
             folder_id,
         )
         .await?;
+        // Load the existing commits so the event log
+        // knows the current events it is replacing
+        event_log.load_tree().await?;
         event_log.replace_all_events(diff).await?;
 
         let vault = FolderReducer::new()
